@@ -91,8 +91,21 @@ def worker(args):
                 coeffs = [h0 for (s0, i0, q0, h0), (s1, i1, q1, h1) in zip(r0, r1) if s0 == 1 and abs((h1 - h0) + 1.0) < 1e-9]
                 bstar = max(coeffs) if coeffs else None
                 fine = np.array(ob.extra_f(xs, p0)[0]).reshape(-1)
+                # independent certificate: on every integrator step the expression is a polynomial in the
+                # normalised step time; its Bernstein coefficients at the product degree are what the rows
+                # must bound (fit through the 30 refined samples of the step)
+                deg = 4 if case["inf"]["kind"] == "affine" else 8
+                nsteps = (len(fine) - 1) // R
+                bern = []
+                from math import comb
+                sgrid = np.arange(R) / R       # the right end point belongs to the next step (states may jump there)
+                for st in range(nsteps):
+                    ys = fine[st * R: st * R + R]
+                    a = np.polynomial.polynomial.polyfit(sgrid, ys, deg)
+                    for k in range(deg + 1):
+                        bern.append(float(sum(comb(k, i) / comb(deg, i) * a[i] for i in range(k + 1))))
                 res.append({"coeffs": sorted(float(v) for v in coeffs), "bstar": None if bstar is None else float(bstar),
-                            "fine_max": float(np.max(fine)), "fine_min": float(np.min(fine))})
+                            "fine_max": float(np.max(fine)), "fine_min": float(np.min(fine)), "bern": sorted(bern)})
             out["res"] = res
     except Exception as e:
         out["error"] = "%s: %s" % (type(e).__name__, str(e)[:300])
@@ -151,6 +164,15 @@ def run(tier="quick", seed=0, jobs=16):
                                   "constrained expression exceeds the bound between grid points",
                           "bound": rp["bstar"], "max_of_refined_sample": rp["fine_max"], "point": p}]
                     break
+                if case["inf"]["kind"] != "affine" and "bern" in rp:
+                    bc = rp["bern"]
+                    if any((not math.isfinite(v)) or abs(v) > 1e4 for v in bc + rp["coeffs"]):
+                        continue
+                    if len(bc) != len(rp["coeffs"]) or not all(engine.close(a, b, rtol=1e-6, scale=abs(b) + max(map(abs, bc))) for a, b in zip(rp["coeffs"], bc)):
+                        d = [{"what": "rows of the non-affine grid='inf' constraint are not the Bernstein coefficients (degree 8 per step) of the "
+                                      "constrained expression's step polynomials", "n_rockit": len(rp["coeffs"]), "n_expected": len(bc),
+                              "rockit": rp["coeffs"][:9], "expected": bc[:9]}]
+                        break
                 if i in mv:
                     mc = sorted(v[2] for v in mv[i][p])
                     if any((not math.isfinite(v)) or abs(v) > engine.BIG for v in mc + rp["coeffs"]):
